@@ -9,8 +9,8 @@ from vlib import engine, formats, gen, kal, oracle
 ID = "C01"
 RULE = ("Hypothesis draws a sequence set (small fully-drawn families, expanded families up to the tier's size, "
         "unrelated sets, degenerate sets; optional duplicates, case, empty members for file entry points), names, "
-        "alignment type admissible for the kind, gap penalties, thread count and one of 11 entry points "
-        "(kalign(), read+run+dump, read+run+write x3 formats, CLI -o x3 formats, CLI stdout). Oracle: the C01 validity "
+        "alignment type admissible for the kind, gap penalties, thread count and one of 15 entry points "
+        "(kalign(), read+run+dump, read+run+write x3 formats, CLI -o x3 formats, CLI stdout x3, and four object histories ending in a dump: aligned twice; a rejected run first; records read from two files; the second file appended after a first alignment). Oracle: the C01 validity "
         "predicate over the returned rows / the independently parsed file. Non-trivial = >=2 distinct sequences and "
         ">=1 gap in the result; distinct by hash of (inputs, names, config, entry).")
 ASSUMPTIONS = ["names are drawn from [A-Za-z0-9_.|-] for MSF/Clustal (their name column ends at the first blank); FASTA / object entry points also get names with blanks and punctuation",
@@ -18,7 +18,9 @@ ASSUMPTIONS = ["names are drawn from [A-Za-z0-9_.|-] for MSF/Clustal (their name
 BUDGET = {"quick": dict(examples=600, workers=12, seconds=70),
           "thorough": dict(examples=1500, workers=16, seconds=840)}
 
-ENTRIES = ["arr", "dump", "write:fasta", "write:msf", "write:clu", "cli:fasta", "cli:msf", "cli:clu", "stdout:fasta",
+# "hist:*": the msa object has a history before the alignment that is dumped - aligned twice; a rejected run (type of the other
+# kind) first; the records read from two files; the second file appended only after the first part has been aligned once
+ENTRIES = ["arr", "dump", "hist:rerun", "hist:failfirst", "hist:twofiles", "hist:append", "write:fasta", "write:msf", "write:clu", "cli:fasta", "cli:msf", "cli:clu", "stdout:fasta",
            "stdout:clu", "stdout:msf"]
 _LOG = re.compile(r"^\[\d{4}-\d\d-\d\d \d\d:\d\d:\d\d\] :")
 
@@ -90,7 +92,7 @@ def cases(draw, tier):
             names[k] = ("%d" % k + names[k])[:len(names[k])]
     cfg = {"type": draw(gen.types_for(ss["kind"])), "threads": draw(gen.threads)}
     cfg["gpo"], cfg["gpe"], cfg["tgpe"] = draw(gen.penalties())
-    return {"names": names, "seqs": seqs, "cfg": cfg, "entry": entry, "kind": ss["kind"], "shape": ss["shape"],
+    return {"names": names, "seqs": seqs, "cfg": cfg, "entry": entry, "kind": ss["kind"], "shape": ss["shape"], "hist_cut": draw(st.integers(0, 60)),
             "final_newline": draw(st.sampled_from([True, True, True, False])),
             # the input file may already contain gap characters / punctuation (an existing alignment, '*' terminators):
             # none, sprinkled everywhere, only in the records after a drawn index, or a trailing '*' on some records
@@ -184,7 +186,33 @@ def check(case):
             if not case.get("final_newline", True) and seqs[-1]:
                 body = body.rstrip(b"\n")      # a file whose last byte is a residue
             fp = wd.write(body, ".fa")
-            if entry == "dump" or entry.startswith("write:"):
+            if entry.startswith("hist:"):
+                how = entry.split(":")[1]
+                cut = 1 + case.get("hist_cut", 0) % max(1, len(seqs) - 1)
+                pg = present_with_gaps(case)
+                run = "run 0 %s" % kal.cfg_args(cfg)
+                if how in ("twofiles", "append") and len(seqs) >= 2:
+                    f1 = wd.write(kal.fasta_bytes(names[:cut], pg[:cut], width=0), ".fa")
+                    f2 = wd.write(kal.fasta_bytes(names[cut:], pg[cut:], width=0), ".fa")
+                    lines = ["read 0 1 %s" % f1] + ([run] if how == "append" else []) + ["read 0 1 %s" % f2, run, "dump 0", "free 0"]
+                elif how == "failfirst" and case.get("kind") in ("dna", "protein"):
+                    lines = ["read 0 1 %s" % fp, "run 0 %s" % kal.cfg_args(dict(cfg, type=3 if case["kind"] == "dna" else 0)), run, "dump 0", "free 0"]
+                else:
+                    lines = ["read 0 1 %s" % fp, run, run, "dump 0", "free 0"]
+                pr = kal.runner.run_probe(lines)
+                if pr.ended.bad or pr.ended.rc != 0 or pr.steps is None or len(pr.steps) != len(lines):
+                    raise kal.Failure(pr.ended, "object history " + how)
+                st_ = pr.steps
+                read_failed = any(x.get("rc") != 0 for x, ln in zip(st_, lines) if ln.startswith("read "))
+                if read_failed or st_[-3]["rc"] != 0 or st_[-2].get("msa") is None:
+                    if how in ("twofiles", "append") and gen.expected_kind([x for x in seqs[:cut] if x]) != gen.expected_kind([x for x in seqs[cut:] if x]):
+                        return engine.discard("the two parts are not of one kind on their own (kalign refuses to merge them)")
+                    return engine.violation({"what": "the final run of the history '%s' failed on a valid input" % how,
+                                             "rcs": [x.get("rc") for x in st_]}, kind="status")
+                m = st_[-2]["msa"]
+                out_names, rows = kal.msa_rows(m)
+                alnlen = m["alnlen"]
+            elif entry == "dump" or entry.startswith("write:"):
                 fmt = entry.split(":")[1] if ":" in entry else None
                 r = kal.run_files([fp], cfg, write=[fmt] if fmt else None)
                 if r["read_rcs"] != [0] or r["run_rc"] != 0:
